@@ -36,6 +36,16 @@ def showSpecFound : Option Spec.Found → String
   | none => "none"
   | some f => showFound f.route f.params f.tsr
 
+/-- lookup results of the `ops` stream also name the handler registered last for the route (`#hid`): an Update must be
+    visible through every node the matcher can reach the route by -/
+def showResultH : Result → String
+  | .found r ps tsr => showFound r ps tsr ++ "#" ++ toString r.hid
+  | x => showResult x
+
+def showSpecFoundH : Option Spec.Found → String
+  | none => "none"
+  | some f => showFound f.route f.params f.tsr ++ "#" ++ toString f.route.hid
+
 def insSorted (s : String) : List String → List String
   | [] => [s]
   | x :: xs => if s < x then s :: x :: xs else x :: insSorted s xs
@@ -127,8 +137,8 @@ def stepBase (st : St) (op : String) : St :=
     let st := if res == lookup st.tree.roots (ascii m) (fromHex! host) (fromHex! path) then st.tag "machine=walk" else st.tag "machine-vs-walk"
     let sp := Spec.route (st.store.routesOf (ascii m)) (fromHex! host) (fromHex! path)
     -- the routing specification speaks about paths without empty segments
-    if hasEmptySeg (fromHex! path) then (st.emit (showResult res) "skip").tag "lk-emptyseg-unspecified" else
-    (lookupTags res (fromHex! host)).foldl St.tag (st.emit (showResult res) (showSpecFound sp))
+    if hasEmptySeg (fromHex! path) then (st.emit (showResultH res) "skip").tag "lk-emptyseg-unspecified" else
+    (lookupTags res (fromHex! host)).foldl St.tag (st.emit (showResultH res) (showSpecFoundH sp))
   | ["R", m, pat] =>
     let res := st.tree.has (ascii m) (fromHex! pat)
     let sp := match tokenize (fromHex! pat) with
